@@ -19,6 +19,7 @@ func init() {
 		profiles := fs.String("profiles", "0", "comma separated concretisation profiles")
 		deep := fs.Bool("deep", false, "also run the DeepEqual/Copy cross-implementation checks (C01)")
 		workers := fs.Int("workers", 0, "worker goroutines")
+		frontEnds := fs.Bool("frontends", false, "also run the first build of every behaviour through the closure front ends fluent and fluent/qp")
 		fs.Parse(args)
 
 		tg := replay.AsmTargets(*topKind)
@@ -57,6 +58,17 @@ func init() {
 						f.Input = &cs
 						col.Add(*f)
 						break
+					}
+				}
+				if *frontEnds {
+					f, n, skipped := replay.ReplayClosureFrontEnds(&cs, cs.Abort, t, model.Conc{Sym: true, Profile: profs[0]})
+					checks += n
+					col.AddExtra("closure_front_end_builds", n)
+					col.AddExtra("not_expressible_with_qp", skipped)
+					if f != nil {
+						f.Case = idx
+						f.Input = &cs
+						col.Add(*f)
 					}
 				}
 			}
